@@ -11,13 +11,14 @@ import (
 	"encoding/json"
 	"flag"
 	"fmt"
+	"io/ioutil"
 	"os"
 	"runtime"
 	"strconv"
 	"time"
 
 	"verif/sim/ctl"
-	_ "verif/sim/props"
+	"verif/sim/props"
 	"verif/sim/tape"
 )
 
@@ -129,6 +130,22 @@ func main() {
 			os.Exit(rc)
 		}
 		os.Exit(ctl.Replay(path, *verbose))
+	case "c15child":
+		b, err := ioutil.ReadFile(os.Args[2])
+		if err != nil {
+			fmt.Fprintln(os.Stderr, err)
+			os.Exit(2)
+		}
+		var vals []uint64
+		if err := json.Unmarshal(b, &vals); err != nil {
+			fmt.Fprintln(os.Stderr, err)
+			os.Exit(2)
+		}
+		if n, err := strconv.Atoi(os.Getenv("VERIF_GOMAXPROCS")); err == nil && n > 0 {
+			runtime.GOMAXPROCS(n)
+		}
+		fmt.Println(props.C15Child(vals))
+		os.Exit(0)
 	case "replay-inproc":
 		rf, err := ctl.ReadReplay(os.Args[2])
 		if err != nil {
